@@ -106,6 +106,7 @@ module.exports = mk({
     // package level: main.js wrappers must hand back the caller's text byte for byte
     if (!main) main = bridge.loadMain()
     const file = leaf.file || '/p/app.js'
+    bridge.forget()
     bridge.provide(config, code, file, resp)
     for (const cls of ['NonCacheRewriter', 'Rewriter']) {
       let out
